@@ -47,6 +47,40 @@ def value_depends(model, cls, f, expr, inst_names, defs, seen=None):
     return False
 
 
+SURROGATES = {'id', 'hash', 'repr', 'str'}
+
+
+def only_through_surrogate(expr, inst, defs, depth=4):
+    """does `expr` use the instance only through id()/hash()/repr()/str() - a surrogate that is unique only among *live* objects?"""
+    direct = False
+    surrogate = False
+
+    def scan(e, under, level):
+        nonlocal direct, surrogate
+        if isinstance(e, tuple):
+            e = e[1]
+        if not isinstance(e, ast.AST):
+            return
+        if isinstance(e, ast.Call) and isinstance(e.func, ast.Name) and e.func.id in SURROGATES:
+            for a in e.args:
+                scan(a, True, level)
+            return
+        if isinstance(e, ast.Name):
+            if e.id == inst:
+                if under:
+                    surrogate = True
+                else:
+                    direct = True
+            elif level < depth:
+                for d in defs.get(e.id, []):
+                    scan(d, under, level + 1)
+            return
+        for ch in ast.iter_child_nodes(e):
+            scan(ch, under, level)
+    scan(expr, False, 0)
+    return surrogate and not direct
+
+
 def guarded_by_instance_none(f, ret, inst):
     """`if instance is None: return self` - class-level access idiom"""
     for n in walk_shallow(f.node):
@@ -93,6 +127,10 @@ def check(run, model, tier):
             ok = depends_on(t, {inst}, sdefs)
             why = ('__set__ stores the value in %s, which does not depend on `%s`: the descriptor is one object per class, '
                    'so every instance shares the value' % (norm(t), inst))
+            if ok and only_through_surrogate(t, inst, sdefs):
+                ok = False
+                why = ('__set__ stores the value under a key derived from id()/hash() of the instance (%s) in storage owned by the descriptor: such a key is unique only among '
+                       'live objects, so after an instance is garbage-collected a new instance allocated at the same address reads the dead one\'s value instead of 0' % norm(t))
         run.inst('DESC.instance-storage', s, 'store ' + norm(t), ok, '' if ok else why, node=n, obligation=True)
     # ---- __get__
     selfn, inst = g.params[0], g.params[1]
